@@ -4,12 +4,12 @@ channels and a harness server set whose initial load is released by the script.
 
 Script: {'kind': 'heap'|'aperture', 'min_size', 'max_size', 'min_load': [n, d], 'max_load': [n, d],
          'slow_open': bool, 'initial': [ep...], 'ops': [...], 'seed': int}
-script ops:  ['open'] ['snap'] ['loaded'] ['join', ep] ['leave', ep] ['get'] ['put', k] ['chan', nid, st]
+script ops:  ['open'] ['snap'] ['loaded'] ['join', ep] ['leave', ep] ['get'] ['getd'] ['expire', k] ['put', k] ['chan', nid, st]
              ['opened', nid, ok] ['jitter'] ['tick', ms]
 `snap` (the moment the provider takes the snapshot it will return from GetServers) and `tick` (virtual time
 passes) are harness-only; all others become model operations
 
-    open | loaded (eps in AddServer order) E | join ep E | leave ep E | get E | put r j E | chan nid st
+    open | loaded (eps in AddServer order) E | join ep E | leave ep E | get E | getd E | expire k | put r j E | chan nid st
     | opened nid T/F E | jitter E          with E = (choices…) ((wn wd an ad)…)
 
 where `choices` are the endpoints `random.choice` returned inside `_TryExpandAperture` and each 4-tuple is the
@@ -29,8 +29,60 @@ def frac(x):
 
 
 # --------------------------------------------------------------------------- generation
+def gen_gate(rng, tier):
+    """C12, balancer hop: requests with and without a deadline event pile up in front of the open result (slow
+    initial load and/or slow channel opens), some of their deadline events are set, then the open result completes"""
+    kind = rng.choice(['heap', 'aperture'])
+    n_eps = rng.choice([0, 1, 2, 3, 5])
+    initial = sorted(rng.sample(range(n_eps + 2), n_eps))
+    slow = rng.random() < 0.5
+    ops = [['open']]
+    waiting = []            # has a deadline event?
+    n_get = 0
+
+    def traffic(n):
+        nonlocal n_get
+        for _ in range(n):
+            r = rng.random()
+            if r < 0.3:
+                ops.append(['get']); waiting.append(False); n_get += 1
+            elif r < 0.7:
+                ops.append(['getd']); waiting.append(True); n_get += 1
+            elif r < 0.9 and any(waiting):
+                k = rng.choice([i for i, w in enumerate(waiting) if w])
+                ops.append(['expire', k])
+            elif r < 0.95:
+                ops.append(['join', rng.randrange(n_eps + 2)])
+            else:
+                ops.append(['leave', rng.randrange(n_eps + 2)])
+
+    traffic(rng.choice([0, 2, 4, 8, 12]))
+    ops.append(['loaded'])
+    if slow:
+        # the open result is still pending: more requests arrive, more deadlines pass
+        traffic(rng.choice([0, 3, 6, 10]))
+        for _ in range(rng.choice([1, 2, 4])):
+            ops.append(['opened', -1, rng.random() < 0.7])
+            if rng.random() < 0.3:
+                traffic(2)
+    # afterwards the gate is open: requests go straight through, deadline event or not
+    for _ in range(rng.choice([0, 2, 5])):
+        r = rng.random()
+        if r < 0.4:
+            ops.append(['get']); n_get += 1
+        elif r < 0.8:
+            ops.append(['getd']); n_get += 1
+        elif n_get:
+            ops.append(['put', rng.randrange(n_get)])
+    return {'t': 'lbgate', 'kind': kind, 'min_size': rng.choice([1, 1, 2]), 'max_size': rng.choice([2, 4]),
+            'min_load': [1, 2], 'max_load': [2, 1], 'slow_open': slow, 'initial': initial, 'ops': ops,
+            'auto_open': rng.random() < 0.7, 'seed': rng.randrange(1 << 30)}
+
+
 def gen_script(rng, tier, focus):
-    """focus 5: membership histories on both balancers; focus 6: aperture dynamics"""
+    """focus 5: membership histories on both balancers; focus 6: aperture dynamics; focus 12: the open gate"""
+    if focus == 12:
+        return gen_gate(rng, tier)
     if focus == 5:
         kind = rng.choice(['heap', 'aperture'])
     else:
@@ -64,8 +116,12 @@ def gen_script(rng, tier, focus):
             ops.append(['leave', ep]); ref.discard(ep)
         elif r < 0.9 and not snapped:
             ops.append(['snap']); snapped = True
-        else:
+        elif r < 0.95:
             ops.append(['get']); open_gets.append(n_get); n_get += 1
+        elif r < 0.985:
+            ops.append(['getd']); open_gets.append(n_get); n_get += 1
+        else:
+            ops.append(['expire', rng.randrange(4)])
     ops.append(['loaded'])
     n_nodes_guess = universe * 3
     p_get = rng.choice([0.3, 0.45, 0.6])
@@ -119,8 +175,8 @@ def shrink(script):
         if ops[i][0] in ('open', 'loaded'):
             continue
         cand = ops[:i] + ops[i + 1:]
-        if ops[i][0] == 'get':
-            gi = sum(1 for o in ops[:i] if o[0] == 'get')
+        if ops[i][0] in ('get', 'getd'):
+            gi = sum(1 for o in ops[:i] if o[0] in ('get', 'getd'))
             new = []
             for o in cand:
                 if o[0] == 'put':
@@ -169,7 +225,8 @@ def run_script(script, comp):
     from scales.loadbalancer.aperture import ApertureBalancerSink
     from scales.loadbalancer.heap import HeapBalancerSink
     from scales.loadbalancer.serverset import ServerSetProvider
-    from scales.message import Message, MethodReturnMessage
+    from scales.message import Deadline, Message, MethodReturnMessage
+    from scales.observable import Observable
     from scales.sink import ClientMessageSink, ClientMessageSinkStack, SinkProviderBase
     from scales.varz import Ema, VarzReceiver
 
@@ -220,7 +277,7 @@ def run_script(script, comp):
             self.open_out = None      # None pending / True / False
 
         def AsyncProcessRequest(self, sink_stack, msg, stream, headers):
-            self.log.append(('req', self.cid))
+            self.log.append(('req', self.cid, msg))
 
         def AsyncProcessResponse(self, sink_stack, context, stream, msg):
             pass
@@ -398,58 +455,60 @@ def run_script(script, comp):
     def env_text():
         return vfmt_items([list(choices), list(adj_in)])
 
-    def issue_get():
+    def issue_get(with_deadline=False):
         st = ClientMessageSinkStack()
         rec = Rec()
         st.Push(rec)
         msg = Message()
-        q = {'st': st, 'rec': rec, 'msg': msg, 'served': False, 'res': None, 'dispatch': None}
+        evt = None
+        if with_deadline:
+            evt = Observable()
+            msg.properties[Deadline.EVENT_KEY] = evt
+        q = {'st': st, 'rec': rec, 'msg': msg, 'served': False, 'res': None, 'dispatch': None, 'evt': evt}
         getmap.append(q)
         queued.append(q)
         sink.AsyncProcessRequest(st, msg, None, {})
         return q
 
-    def harvest():
-        """results of requests the balancer has served since the last call, in service order"""
-        out = []
-        # service order = order of 'req' log entries and no-member responses; both are appended to prov.log
-        pendingq = [q for q in queued if not q['served']]
-        for q in pendingq:
-            if q['rec'].got:
-                err = q['rec'].got[0].error
-                q['served'] = True
-                q['res'] = 'nomembers' if type(err).__name__ == 'NoMembersError' else ['error', type(err).__name__]
-            elif MessageProperties.Endpoint in q['msg'].properties:
-                q['served'] = True
-                ep = q['msg'].properties[MessageProperties.Endpoint]
-                wrapper = q['st']._stack[-1][1] if q['st']._stack else None
-                q['dispatch'] = len(stacks)
-                # the node is the one whose channel logged this request: k-th 'req' entry
-                stacks.append([q['st'], wrapper, False])
-                q['res'] = ['node', None, ep_id(ep), q['dispatch']]
-        return pendingq
-
     steps, tags = [], set()
     req_seen = [0]
 
-    def finish_results(pendingq):
-        """assign node ids (from the channel log) to newly served requests; requests are served in issue
-        order both when direct and when flushed from the open queue"""
-        res = []
-        reqs = [e for e in prov.log[req_seen[0]:] if e[0] == 'req']
+    def harvest():
+        """what became, during this operation, of the requests that had not been served before it: results in
+        arrival order.  Dispatch numbers follow the order in which the channels received the requests."""
+        waiting = [q for q in queued if not q['served']]
+        extra = []
+        for e in prov.log[req_seen[0]:]:
+            if e[0] != 'req':
+                continue
+            owner = [q for q in queued if q['msg'] is e[2]]
+            if not owner or owner[0]['served']:
+                extra.append(['late' if owner else 'lost', e[1]])     # a request nobody is waiting for was forwarded
+                continue
+            q = owner[0]
+            q['served'] = True
+            ep = q['msg'].properties.get(MessageProperties.Endpoint)
+            wrapper = q['st']._stack[-1][1] if q['st']._stack else None
+            q['dispatch'] = len(stacks)
+            stacks.append([q['st'], wrapper, False])
+            q['res'] = ['node', e[1], ep_id(ep) if ep is not None else -1, q['dispatch']]
         req_seen[0] = len(prov.log)
-        k = 0
-        for q in pendingq:
-            if q['served'] and isinstance(q['res'], list) and q['res'][0] == 'node':
-                if q['res'][1] is None:
-                    q['res'][1] = reqs[k][1] if k < len(reqs) else -1
-                    k += 1
+        oar = sink._LoadBalancerSink__open_ar
+        ready = oar is not None and oar.ready()
+        res = []
+        for q in waiting:
+            if not q['served'] and q['rec'].got:
+                err = q['rec'].got[0].error
+                q['served'] = True
+                q['res'] = 'nomembers' if type(err).__name__ == 'NoMembersError' else ['error', type(err).__name__]
+            if not q['served'] and ready:
+                # its link on the open result has run and did not forward it
+                q['served'] = 'dropped'
+                q['res'] = 'dropped'
+                tags.add('gate-dropped')
+            if q['served']:
                 res.append(q['res'])
-            elif q['served']:
-                res.append(q['res'])
-        if k != len(reqs):
-            res.append(['lost', len(reqs) - k])
-        return res
+        return res + extra
 
     for op in script['ops']:
         kind = op[0]
@@ -495,10 +554,18 @@ def run_script(script, comp):
             blocked.append(g)
             rt.drain()
             optxt = '%s %d %s' % (kind, ep, env_text())
-        elif kind == 'get':
-            direct = issue_get()
+        elif kind in ('get', 'getd'):
+            direct = issue_get(kind == 'getd')
             rt.drain()
-            optxt = 'get ' + env_text()
+            optxt = kind + ' ' + env_text()
+        elif kind == 'expire':
+            waiting = [q for q in queued if not q['served']]
+            if op[1] >= len(waiting) or waiting[op[1]]['evt'] is None:
+                continue
+            waiting[op[1]]['evt'].Set(True)       # the timeout sink's timer fired: the caller has its TimeoutError
+            rt.drain()
+            optxt = 'expire %d' % op[1]
+            tags.add('gate-expired')
         elif kind == 'put':
             if op[1] >= len(getmap):
                 continue
@@ -562,8 +629,7 @@ def run_script(script, comp):
             tags.add('jitter')
         else:
             raise ValueError(kind)
-        pendingq = harvest()
-        res = finish_results(pendingq)
+        res = harvest()
         if direct is not None and not direct['served']:
             res = res + ['queued']
             tags.add('get-queued')
